@@ -1217,6 +1217,7 @@ func ruleC10TypeWalks(c *Ctx) {
 					return header.Dominates(b) && (b == latch || core.Reachable(b, latch, map[*ssa.BasicBlock]bool{header: true}))
 				}
 				checked, recorded, counted := false, false, false
+				condRecorded := ""
 				for _, b := range fn.Blocks {
 					if b != header && !inLoop(b) {
 						continue
@@ -1226,6 +1227,28 @@ func ruleC10TypeWalks(c *Ctx) {
 						case *ssa.MapUpdate:
 							if x.Key == ssa.Value(phi) {
 								recorded = true
+								// every type that can lie on a cycle is recorded: a cycle of pointer types passes through a
+								// declared type, so the recording may depend on the type having a name, on nothing else
+								for _, g := range guardsLocal(x) {
+									if g.At.Block() != header && !inLoop(g.At.Block()) {
+										continue
+									}
+									okG, mentions := false, false
+									for _, v := range sliceWithReceivers(g.Cond, 30) {
+										if v == ssa.Value(phi) {
+											mentions = true
+										}
+										if lk, ok := v.(*ssa.Lookup); ok && lk.Index == ssa.Value(phi) {
+											okG = true
+										}
+										if mc, ok := v.(*ssa.Call); ok && mc.Call.IsInvoke() && mc.Call.Value == ssa.Value(phi) && (mc.Call.Method.Name() == "Name" || mc.Call.Method.Name() == "Kind" || mc.Call.Method.Name() == "PkgPath") {
+											okG = true
+										}
+									}
+									if mentions && !okG {
+										condRecorded = c.pos(g.At)
+									}
+								}
 							}
 						case *ssa.If:
 							exits := false
@@ -1272,6 +1295,10 @@ func ruleC10TypeWalks(c *Ctx) {
 							}
 						}
 					}
+				}
+				if recorded && !counted {
+					c.R.Check(condRecorded == "", rule, core.FuncName(fn)+":elem-walk:every-named-type-recorded", c.pos(call), "whether a type is recorded as visited depends only on its having a name",
+						"whether a type passed by the walk is recorded as visited depends on another property of the type (test at "+condRecorded+") than its having a name: only some of the types that can lie on a cycle are recorded (type P *P is, type P **P or type P *Q; type Q *P are not), and for the others the loop never ends, so For/ForType hang")
 				}
 				c.R.Check(checked && recorded || counted, rule, core.FuncName(fn)+":elem-walk", c.pos(call),
 					"a loop that descends through element types consults and extends a set of visited types (or counts its steps)",
